@@ -6,11 +6,16 @@
 // policy, a pass-through wrapper, a reader with more methods than BlobReader).  A member's
 // failure comes in flavours (a plain error, the member's own cancellation or deadline while the
 // caller's context is live, OCI and HTTP errors, ...) and the caller's context ends by cancel
-// or by deadline: the property does not tell them apart, so the unifier must not.  After an event with
+// or by deadline, or it is a context of a foreign type (package context then forwards its
+// cancellation through goroutines that show in the profile as long as a derived context has not
+// been cancelled): the property does not tell them apart, so the unifier must not.  The readers
+// the members hand out may be stalled streams (Read blocks until the member's context is
+// cancelled): the protocol has no business reading them.  After an event with
 // wait set the harness lets everything run until every goroutine is blocked or gone (decided
 // from the goroutine profile, not by sleeping) and records a snapshot: the call's result, per
 // member whether its call started / returned, its context state when it returned and now, the
-// Close count of the reader it handed out, and how many goroutines are alive / inside a
+// Close count of the reader it handed out, whether its context carries a deadline the caller's
+// does not have, and how many goroutines are alive / inside a
 // member call.  Coq compares the snapshot list with the set the protocol model allows
 // (model_agrees) and judges it against the specification (obs_ok).
 package main
@@ -61,8 +66,13 @@ type input struct {
 	F1 string `json:"f1,omitempty"`
 	// End: how the caller's context ends at the "cancel" event: "" - its cancel function is
 	// called (Err() = context.Canceled); "deadline" - it expires (Err() = context.DeadlineExceeded).
+	// "foreign" - the caller's context is not one of package context's own types (foreignCtx
+	// below) and ends by its own cancel function.
 	// Either way the caller has given up: the prediction does not depend on it.
 	End string `json:"end,omitempty"`
+	// Stall: the readers the members hand out are streams that have stalled - Read blocks until
+	// the member's context is cancelled or the reader is closed (the caller does not read).
+	Stall bool `json:"stall,omitempty"`
 	// CloseErr makes every member reader's Close return an error (the property does not
 	// depend on what Close returns; the model's prediction is the same).
 	CloseErr bool `json:"close_err,omitempty"`
@@ -207,9 +217,31 @@ type fakeReader struct {
 	failAt int   // Read fails with rdErr once this many bytes have been delivered (-1: never)
 	rdErr  error // errRead in some flavour
 	served int
+	// a stalled stream: Read (ReadAt, Seek) blocks until the member's context is done or the
+	// reader is closed - what an HTTP body does on a connection on which nothing arrives
+	stall  context.Context
+	closed chan struct{}
+}
+
+// wait is where a stalled reader's Read waits.
+//
+//go:noinline
+func (r *fakeReader) wait() error {
+	if r.stall == nil {
+		return nil
+	}
+	select {
+	case <-r.stall.Done():
+		return fmt.Errorf("%w: %w", r.rdErr, r.stall.Err())
+	case <-r.closed:
+		return fmt.Errorf("%w: read on a closed reader", r.rdErr)
+	}
 }
 
 func (r *fakeReader) Read(buf []byte) (int, error) {
+	if err := r.wait(); err != nil {
+		return 0, err
+	}
 	r.mu.Lock()
 	defer r.mu.Unlock()
 	if r.failAt >= 0 {
@@ -228,6 +260,9 @@ func (r *fakeReader) Read(buf []byte) (int, error) {
 func (r *fakeReader) Close() error {
 	r.mu.Lock()
 	r.closes++
+	if r.closes == 1 && r.closed != nil {
+		close(r.closed)
+	}
 	r.mu.Unlock()
 	return r.err
 }
@@ -240,11 +275,17 @@ func (r richReader) WriteTo(w io.Writer) (int64, error) {
 	return io.Copy(w, struct{ io.Reader }{r.fakeReader})
 }
 func (r richReader) Seek(off int64, whence int) (int64, error) {
+	if err := r.wait(); err != nil {
+		return 0, err
+	}
 	r.mu.Lock()
 	defer r.mu.Unlock()
 	return r.src.Seek(off, whence)
 }
 func (r richReader) ReadAt(buf []byte, off int64) (int, error) {
+	if err := r.wait(); err != nil {
+		return 0, err
+	}
 	r.mu.Lock()
 	defer r.mu.Unlock()
 	return r.src.ReadAt(buf, off)
@@ -265,11 +306,13 @@ type member struct {
 	deadAtRet bool
 	rd        *fakeReader
 	calls     int
-	fail      error // what the member fails with (memberErr[idx] in the flavour of the case)
-	closeErr  error // returned by Close of the readers this member hands out
-	readErrV  error // what Read of those readers fails with when readErr is set
-	readErr   bool  // the readers this member hands out fail half way through
-	rich      bool  // ... and are richReaders
+	fail      error  // what the member fails with (memberErr[idx] in the flavour of the case)
+	closeErr  error  // returned by Close of the readers this member hands out
+	readErrV  error  // what Read of those readers fails with when readErr is set
+	readErr   bool   // the readers this member hands out fail half way through
+	rich      bool   // ... and are richReaders
+	stall     bool   // ... and are stalled streams
+	gid       string // the goroutine that made the call
 
 	// filled in by the pass-through wrapper, when there is one
 	wrapped    bool
@@ -277,16 +320,19 @@ type member struct {
 	wReturned  bool
 	wCtx       context.Context
 	wDeadAtRet bool
+	wGid       string
 }
 
 // call is where a member call waits; its name is looked for in the goroutine profile.
 //
 //go:noinline
 func (m *member) call(ctx context.Context) bool {
+	gid := myGID()
 	m.mu.Lock()
 	m.started = true
 	m.ctx = ctx
 	m.calls++
+	m.gid = gid
 	m.mu.Unlock()
 	if m.onCancel {
 		<-ctx.Done()
@@ -310,6 +356,9 @@ func (m *member) reader(ctx context.Context) (ociregistry.BlobReader, error) {
 		rd := &fakeReader{src: bytes.NewReader([]byte(content)),
 			desc: ociregistry.Descriptor{MediaType: "application/octet-stream", Digest: memberDigest(m.idx), Size: int64(len(content))},
 			err:  m.closeErr, failAt: -1, rdErr: m.readErrV}
+		if m.stall {
+			rd.stall, rd.closed = ctx, make(chan struct{})
+		}
 		if m.readErr {
 			rd.failAt = len(content) / 2
 		}
@@ -383,9 +432,11 @@ type wrapReg struct {
 }
 
 func (w *wrapReg) enter(ctx context.Context) {
+	gid := myGID()
 	w.m.mu.Lock()
 	w.m.wStarted = true
 	w.m.wCtx = ctx
+	w.m.wGid = gid
 	w.m.mu.Unlock()
 }
 
@@ -528,6 +579,48 @@ func (c *expiringCtx) expire() {
 	}
 }
 
+// foreignCtx is a caller's context that is not one of package context's own types and offers
+// no AfterFunc: its own Done channel, the way a framework's request context or a merged
+// context is made.  Package context hooks a derived context to such a parent with a goroutine
+// of its own (propagateCancel) that stays parked until the parent or the derived context is
+// done - so a derived context that nobody cancels is a goroutine in the profile for as long as
+// the caller's context lives.
+type foreignCtx struct {
+	mu   sync.Mutex
+	done chan struct{}
+	err  error
+}
+
+func newForeignCtx() *foreignCtx { return &foreignCtx{done: make(chan struct{})} }
+
+func (c *foreignCtx) Deadline() (time.Time, bool) { return time.Time{}, false }
+func (c *foreignCtx) Done() <-chan struct{}       { return c.done }
+func (c *foreignCtx) Value(any) any               { return nil }
+func (c *foreignCtx) Err() error {
+	c.mu.Lock()
+	defer c.mu.Unlock()
+	return c.err
+}
+
+func (c *foreignCtx) cancel() {
+	c.mu.Lock()
+	defer c.mu.Unlock()
+	if c.err == nil {
+		c.err = context.Canceled
+		close(c.done)
+	}
+}
+
+// ownTimer: the context carries a deadline that the caller's context does not have.
+func ownTimer(ctx, caller context.Context) bool {
+	d, ok := ctx.Deadline()
+	if !ok {
+		return false
+	}
+	cd, cok := caller.Deadline()
+	return !cok || !d.Equal(cd)
+}
+
 // ---------------------------------------------------------------- goroutine profile
 
 var hdrRe = regexp.MustCompile(`^goroutine (\d+) \[([^\],]+)`)
@@ -545,6 +638,7 @@ type gor struct {
 	creator string // id of the goroutine that started it ("" for the main goroutine)
 	inLeaf  bool   // inside the fake registry's call
 	inWrap  bool   // inside a pass-through wrapper
+	fwd     bool   // package context's goroutine forwarding a foreign parent's cancellation
 }
 
 var creatorRe = regexp.MustCompile(`(?m)^created by .* in goroutine (\d+)$`)
@@ -577,7 +671,8 @@ func profile() []gor {
 					continue
 				}
 				g := gor{id: m[1], state: m[2], inLeaf: strings.Contains(blk, "main.(*member).call("),
-					inWrap: strings.Contains(blk, "main.(*wrapReg).")}
+					inWrap: strings.Contains(blk, "main.(*wrapReg)."),
+					fwd:    strings.Contains(blk, "context.(*cancelCtx).propagateCancel.func")}
 				if c := creatorRe.FindStringSubmatch(blk); c != nil {
 					g.creator = c[1]
 				}
@@ -641,6 +736,11 @@ type msnap struct {
 	DeadAtRet bool   `json:"ctx_done_at_return"`
 	Dead      bool   `json:"ctx_done_now"`
 	Reader    string `json:"reader"` // none | open | closed | closed-twice
+	// the context given to the member carries a deadline that the caller's context does not have
+	Timer bool `json:"ctx_has_own_deadline"`
+	// foreign caller context: package context's forwarding goroutine for this member's context
+	// is parked (the context has not been cancelled)
+	Fwd bool `json:"ctx_forwarder_parked,omitempty"`
 }
 
 type snapshot struct {
@@ -680,6 +780,8 @@ func runCase(in input) runResult {
 		}
 	}
 	ms[0].readErr, ms[1].readErr = in.ReadErr, in.ReadErr
+	ms[0].stall, ms[1].stall = in.Stall, in.Stall
+	foreign := in.End == "foreign"
 	u := ociunify.New(ms[0].build(in.S0), ms[1].build(in.S1), &ociunify.Options{ReadPolicy: ociunify.ReadConcurrent})
 	harnessGID := myGID()
 	var ctx context.Context
@@ -688,6 +790,9 @@ func runCase(in input) runResult {
 	if in.End == "deadline" {
 		ec := newExpiringCtx()
 		ctx, cancel, ctxEnd = ec, ec.expire, context.DeadlineExceeded
+	} else if foreign {
+		fc := newForeignCtx()
+		ctx, cancel = fc, fc.cancel
 	} else {
 		ctx, cancel = context.WithCancel(context.Background())
 	}
@@ -785,8 +890,34 @@ func runCase(in input) runResult {
 		p, quiet := settle(settleLimit())
 		s := snapshot{After: after, Quiet: quiet, Started: started, Cancelled: cancelled, Closed: isDone(closeDone), Res: result()}
 		cg, _ := callGID.Load().(string)
+		var senderGID [2]string
+		for i, m := range ms {
+			m.mu.Lock()
+			senderGID[i] = m.gid
+			if m.wrapped {
+				senderGID[i] = m.wGid
+			}
+			m.mu.Unlock()
+		}
+		var fwdParked [2]bool
 		for _, g := range p[1:] {
 			if base[g.id] {
+				continue
+			}
+			if g.fwd {
+				// the forwarder of the context that member i's sender derived from the caller's
+				// is not a goroutine of the protocol: it is how that context's state shows in the
+				// profile (parked = not cancelled).  Any other forwarder is one too many.
+				mine := false
+				for i := range ms {
+					if g.creator != "" && g.creator == senderGID[i] && !fwdParked[i] {
+						fwdParked[i], mine = true, true
+						break
+					}
+				}
+				if !mine {
+					s.Live++
+				}
 				continue
 			}
 			// goroutines of the call under test are started by the harness (the call, Close,
@@ -811,18 +942,26 @@ func runCase(in input) runResult {
 			}
 			if m.started {
 				x.Dead = m.ctx.Err() != nil
+				x.Timer = ownTimer(m.ctx, ctx)
 			}
 			if m.wrapped {
 				// the context the unifier under test gave to this member is the wrapper's
 				x.Started = m.wStarted
 				if m.wStarted {
 					x.Dead = m.wCtx.Err() != nil
+					x.Timer = ownTimer(m.wCtx, ctx)
 				}
 				if m.wReturned != m.returned {
 					x.Reader = "wrapper-and-fake-differ"
 				} else if m.wReturned {
 					x.DeadAtRet = m.wDeadAtRet
 				}
+			}
+			x.Fwd = fwdParked[i]
+			if foreign && x.Started && x.Dead == x.Fwd {
+				// under a foreign caller context a derived context is live exactly as long as
+				// its forwarder is parked
+				x.Reader = "ctx-and-forwarder-differ"
 			}
 			if x.Reader != "none" {
 			} else if m.calls > 1 {
@@ -855,6 +994,9 @@ func runCase(in input) runResult {
 	useReader := func(how string) {
 		if closeIssued || !blob || !isDone(callDone) || panicked || err != nil || rd == nil || useBusy() {
 			return
+		}
+		if in.Stall {
+			how = "desc" // the caller of a stalled stream does not read (stalled rewrites the schedule accordingly)
 		}
 		var want string
 		for i := 0; i < 2; i++ {
@@ -1053,8 +1195,8 @@ func coqMsnap(m msnap) string {
 		ret = "(Ret Fail)"
 	}
 	rd := map[string]string{"none": "RdNone", "open": "RdOpen", "closed": "RdClosed", "closed-twice": "RdTwice",
-		"called-more-than-once": "RdTwice", "wrapper-and-fake-differ": "RdTwice"}[m.Reader]
-	return fmt.Sprintf("(mkMsnap %s %s %s %s %s)", hx.Bool(m.Started), ret, hx.Bool(m.DeadAtRet), hx.Bool(m.Dead), rd)
+		"called-more-than-once": "RdTwice", "wrapper-and-fake-differ": "RdTwice", "ctx-and-forwarder-differ": "RdTwice"}[m.Reader]
+	return fmt.Sprintf("(mkMsnap %s %s %s %s %s %s)", hx.Bool(m.Started), ret, hx.Bool(m.DeadAtRet), hx.Bool(m.Dead), rd, hx.Bool(m.Timer))
 }
 
 func coqSnap(s snapshot) string {
@@ -1070,9 +1212,9 @@ func coqCase(in input, snaps []snapshot) string {
 	for _, s := range snaps {
 		sn = append(sn, coqSnap(s))
 	}
-	return fmt.Sprintf("{| c_entry := %s; c_k0 := %s; c_k1 := %s; c_sh0 := %s; c_sh1 := %s; c_f0 := %s; c_f1 := %s; c_end := %s; c_sched := %s; c_snaps := %s |}",
+	return fmt.Sprintf("{| c_entry := %s; c_k0 := %s; c_k1 := %s; c_sh0 := %s; c_sh1 := %s; c_f0 := %s; c_f1 := %s; c_end := %s; c_stall := %s; c_sched := %s; c_snaps := %s |}",
 		in.Entry, coqKind(in.K0), coqKind(in.K1), coqShape(in.S0), coqShape(in.S1), coqFail(in.F0), coqFail(in.F1),
-		map[string]string{"": "EndCancel", "deadline": "EndDeadline"}[in.End], hx.List(evs), hx.List(sn))
+		map[string]string{"": "EndCancel", "deadline": "EndDeadline", "foreign": "EndForeign"}[in.End], hx.Bool(in.Stall), hx.List(evs), hx.List(sn))
 }
 
 // ---------------------------------------------------------------- generation
@@ -1149,6 +1291,28 @@ func withUses(sched []item, salt int) []item {
 	return out
 }
 
+// ends: the ways the caller's context is made and ends (every schedule of the enumeration is
+// played with each of them over three consecutive rounds).
+var ends = []string{"deadline", "foreign", ""}
+
+// stalled makes the members' readers stalled streams; the caller of a stalled stream does not
+// read it, so the uses become requests for the descriptor.  Only the reader-style entry points
+// hand out readers.
+func stalled(in input) input {
+	if !isBlob(in.Entry) {
+		return in
+	}
+	in.Stall, in.ReadErr = true, false
+	sched := append([]item{}, in.Sched...)
+	for j := range sched {
+		if sched[j].Ev == "use" {
+			sched[j].Use = "desc"
+		}
+	}
+	in.Sched = sched
+	return in
+}
+
 // flavourMatrix yields, for one entry point, the schedules in which the flavour of a failure
 // could matter to a unifier that looked at it - both members gated, no cancellation until the
 // end: one member fails and the other succeeds (every flavour x which member fails x which
@@ -1167,8 +1331,10 @@ func flavourMatrix(entry string, emit func(input)) {
 		}
 		sched := append(append([]item{{Ev: "start", Wait: true}}, rets...), tail...)
 		in := input{Entry: entry, K0: "gated", K1: "gated", F0: f0, F1: f1, Sched: sched}
-		if played++; played%2 == 0 {
-			in.End = "deadline"
+		played++
+		in.End = ends[played%3]
+		if played%4 < 2 {
+			in = stalled(in)
 		}
 		emit(in)
 	}
@@ -1270,7 +1436,10 @@ func main() {
 			out.Count("kinds:" + in.K0 + "," + in.K1)
 			out.Count("origin:" + origin)
 			out.Count("shapes:" + shapeClass(in.S0) + "," + shapeClass(in.S1))
-			out.Count("caller-context-ends-by:" + map[string]string{"": "cancel", "deadline": "deadline"}[in.End])
+			out.Count("caller-context-ends-by:" + map[string]string{"": "cancel", "deadline": "deadline", "foreign": "cancel-of-a-foreign-context"}[in.End])
+			if in.Stall {
+				out.Count("member-readers:stalled-stream")
+			}
 			out.Count("failure-flavour-m0:" + in.F0)
 			out.Count("failure-flavour-m1:" + in.F1)
 			if m, alone, ok := firstAnswer(in); ok && alone {
@@ -1360,13 +1529,17 @@ func main() {
 				n++
 				fk := (n*7 + rep*29) % (nk * nk)
 				in.F0, in.F1 = failKinds[fk%nk], failKinds[fk/nk]
-				if (n+rep)%3 == 0 {
-					in.End = "deadline"
-				}
+				in.End = ends[(n+rep)%3]
 				switch {
 				case rep == 0:
+					if n%2 == 0 {
+						in = stalled(in)
+					}
 				case rep == 1:
 					in.CloseErr = true
+					if n%2 == 1 {
+						in = stalled(in)
+					}
 				case rep == 2:
 					in.Sched = withUses(in.Sched, n)
 					in.ReadErr = n%2 == 1
@@ -1377,6 +1550,9 @@ func main() {
 					if (n/2+rep)%2 == 0 {
 						in.Sched = withUses(in.Sched, n+rep)
 						in.ReadErr = (n/4)%2 == 1
+					}
+					if (n/4+rep)%2 == 0 {
+						in = stalled(in)
 					}
 				}
 				add(fit(in), "enumerated")
@@ -1465,6 +1641,11 @@ func main() {
 			}
 		}
 		in.Sched = sched
+		// (a foreign caller context is not played in bursts: its cancellation reaches the derived
+		// contexts through goroutines, not before the cancel function returns as the model has it)
+		if rnd.Intn(3) == 0 {
+			in = stalled(in)
+		}
 		add(fit(in), "burst")
 	}
 	finish()
